@@ -45,8 +45,8 @@ CLAIMED = {
 
  "C04": ("SQLREC", "exploration",
          "PARTIAL: metamorphic property-based testing of the SQL text per ledger name (recording driver + PostgreSQL lexer); fold-based oracles for the Go-side volume derivations and for storage.InMemoryStore",
-         "PARTIAL CLAIM. The SQL/plpgsql projection (triggers, volume functions, point-in-time reads) cannot be executed without PostgreSQL and is not covered. Covered: (a) every read method's SQL depends on the ledger name exactly through string constants and every statement on a ledger-scoped table carries it (ledger isolation); (b) Go-side volume derivations equal the fold; (c) InMemoryStore equals the fold.",
-         "Trusted: bun renders arguments into the statement text; the PostgreSQL lexer; the harness fold. NOT covered: 0-init-schema.sql behaviour.",
+         "PARTIAL CLAIM. The SQL/plpgsql projection (triggers, volume functions, point-in-time reads) cannot be executed without PostgreSQL and is not covered. Covered: (a) every read method's SQL depends on the ledger name exactly through string constants and every statement on a ledger-scoped table carries it (ledger isolation); (b) Go-side volume derivations equal the fold; (c) InMemoryStore equals the fold; (d) the aggregated-balances statement built in Go (point-in-time bound, address filters, ledger predicate) evaluated over a Go model of the moves table equals the fold of that ledger's entries up to the instant.",
+         "Trusted: bun renders arguments into the statement text; the PostgreSQL lexer; the harness fold; for (d) the harness's model of what the insert trigger writes into moves (one row per posting side, running volumes, insertion date = log date, effective date = transaction timestamp). NOT covered: 0-init-schema.sql behaviour.",
          "DESIGN.md 5/C04 and 6"),
  "C15": ("LOCKSIM", "exploration",
          "stateful model-based property testing of the real DefaultLocker inside a synctest bubble; generated action lists incl. cancel-at-the-moment-of-grant; invariants observed from outside",
